@@ -347,4 +347,245 @@ theorem written_wf_of_not_done (hw : BWF spec b) (hl : LegalRes b res rg sl)
 
 end written
 
+/-- the three outcomes of `on_result` -/
+inductive ResultCase (b : Bracket) (res : SlotInRung) (rg : Rung) :
+    Bracket → Option (List (Option Nat)) → Prop
+  | stay (h : ¬ RungDone (rg.write res) b.firstFree) : ResultCase b res rg (b.written rg res) none
+  | last (h : RungDone (rg.write res) b.firstFree) (hc : b.numRungs ≤ b.current + 1) :
+      ResultCase b res rg { b.written rg res with current := b.current + 1, firstFree := 0 } none
+  | promote (h : RungDone (rg.write res) b.firstFree) (newLen ms : Nat) (rest : List (Nat × Nat))
+      (es : List TEntry) (htodo : b.todo = (newLen, ms) :: rest)
+      (hes : entriesOf (rg.write res).slots = some es) :
+      ResultCase b res rg
+        { b.written rg res with
+            current := b.current + 1, firstFree := 0,
+            rungs := (b.written rg res).rungs ++
+              [{ slots := (topList es newLen b.mode).map (fun t => ⟨t, none⟩), level := ms }],
+            todo := rest }
+        (some (remainingList es (topList es newLen b.mode)))
+
+section done
+variable {spec : List (Nat × Nat)} {b : Bracket} {res : SlotInRung} {rg : Rung} {sl : Slot}
+
+theorem es_ids {slots : List Slot} {es : List TEntry} (h : entriesOf slots = some es) :
+    es.filterMap (·.1) = slots.filterMap (·.tid) := by
+  have h2 := (entriesOf_spec slots es h).2.1
+  have e1 : es.filterMap (·.1) = (es.map (·.1)).filterMap id := by
+    rw [List.filterMap_map]; rfl
+  have e2 : slots.filterMap (·.tid) = (slots.map (·.tid)).filterMap id := by
+    rw [List.filterMap_map]; rfl
+  rw [e1, e2, h2]
+
+theorem last_wf (hw : BWF spec b) (hl : LegalRes b res rg sl)
+    (hd : RungDone (rg.write res) b.firstFree) (hc : b.numRungs ≤ b.current + 1) :
+    BWF spec { b.written rg res with current := b.current + 1, firstFree := 0 } := by
+  have hpre := written_pre hw hl
+  have hn := hw.numRungs_eq
+  have hcl := cur_lt hl
+  have hlen : (b.written rg res).rungs.length = b.rungs.length := by simp [Bracket.written]
+  have hnone : (b.written rg res).rungs[b.current + 1]? = none := by
+    apply List.getElem?_eq_none
+    rw [hlen, hw.len]; omega
+  refine ⟨hpre.kind, hpre.specOk, hpre.shape, ?_, ?_, ?_, ?_, hpre.top, hpre.nodup⟩
+  · have := hpre.len
+    change (b.written rg res).rungs.length = min (b.current + 1) spec.length at this
+    change (b.written rg res).rungs.length = min (b.current + 1 + 1) spec.length
+    omega
+  · intro k r hk hr
+    change k < b.current + 1 at hk
+    change (b.written rg res).rungs[k]? = some r at hr
+    by_cases hkc : k = b.current
+    · subst hkc
+      rw [written_cur hl] at hr
+      have : r = rg.write res := (Option.some.inj hr).symm
+      subst this
+      exact (rungDone_iff hw hl).mp hd
+    · exact hpre.done k r (by change k < b.current; omega) hr
+  · intro r hr
+    change (b.written rg res).rungs[b.current + 1]? = some r at hr
+    rw [hnone] at hr; cases hr
+  · intro r hr
+    change (b.written rg res).rungs[b.current + 1]? = some r at hr
+    rw [hnone] at hr; cases hr
+
+theorem promote_wf (hw : BWF spec b) (hl : LegalRes b res rg sl)
+    (hd : RungDone (rg.write res) b.firstFree) (hc : ¬ b.numRungs ≤ b.current + 1)
+    (newLen ms : Nat) (rest : List (Nat × Nat)) (es : List TEntry)
+    (htodo : b.todo = (newLen, ms) :: rest) (hes : entriesOf (rg.write res).slots = some es) :
+    BWF spec
+      { b.written rg res with
+          current := b.current + 1, firstFree := 0,
+          rungs := (b.written rg res).rungs ++
+            [{ slots := (topList es newLen b.mode).map (fun t => ⟨t, none⟩), level := ms }],
+          todo := rest } := by
+  have hpre := written_pre hw hl
+  have hn := hw.numRungs_eq
+  have hcl := cur_lt hl
+  have hRlen : (b.written rg res).rungs.length = b.current + 1 := by
+    simp only [Bracket.written, List.length_set]; rw [hw.len]; omega
+  have hblen : b.rungs.length = b.current + 1 := by rw [hw.len]; omega
+  -- sizes of the two rungs involved
+  have hs0 : spec[b.current]? = some (rg.slots.length, rg.level) := by
+    rw [← hw.shape]; exact shape_getElem b _ rg hl.hrg
+  have hs1 : spec[b.current + 1]? = some (newLen, ms) := by
+    have := shape_todo b 0
+    rw [hw.shape, hblen, htodo] at this
+    simpa using this
+  have hlt : newLen < rg.slots.length := checkRungs_decr spec hw.specOk b.current _ _ hs0 hs1
+  have hpos : 1 ≤ newLen := checkRungs_size_pos spec hw.specOk (newLen, ms) (List.mem_of_getElem? hs1)
+  have heslen : es.length = rg.slots.length := by
+    rw [(entriesOf_spec _ es hes).1, write_length]
+  have htl : (topList es newLen b.mode).length = newLen := topList_length es newLen b.mode (by omega)
+  set new : Rung := { slots := (topList es newLen b.mode).map (fun t => ⟨t, none⟩), level := ms } with hnew
+  have hnewlen : new.slots.length = newLen := by simp [hnew, htl]
+  set R := (b.written rg res).rungs with hR
+  have hleft : ∀ k, k < b.current + 1 → (R ++ [new])[k]? = R[k]? := by
+    intro k hk; exact List.getElem?_append_left (by omega)
+  have hnewget : (R ++ [new])[b.current + 1]? = some new := by
+    rw [List.getElem?_append_right (by omega)]; simp [hRlen]
+  refine ⟨hpre.kind, hpre.specOk, ?_, ?_, ?_, ?_, ?_, ?_, ?_⟩
+  · -- shape
+    have h1 := hpre.shape
+    unfold Bracket.shape at h1 ⊢
+    change R.map _ ++ b.todo = spec at h1
+    change (R ++ [new]).map _ ++ rest = spec
+    rw [htodo] at h1
+    rw [← h1]; simp [hnewlen]; rfl
+  · change (R ++ [new]).length = min (b.current + 1 + 1) spec.length
+    simp only [List.length_append, List.length_singleton, hRlen]; omega
+  · intro k r hk hr
+    change k < b.current + 1 at hk
+    change (R ++ [new])[k]? = some r at hr
+    rw [hleft k hk] at hr
+    by_cases hkc : k = b.current
+    · subst hkc
+      rw [hR, written_cur hl] at hr
+      have : r = rg.write res := (Option.some.inj hr).symm
+      subst this
+      exact (rungDone_iff hw hl).mp hd
+    · exact hpre.done k r (by change k < b.current; omega) hr
+  · intro r hr
+    change (R ++ [new])[b.current + 1]? = some r at hr
+    rw [hnewget] at hr
+    have : r = new := (Option.some.inj hr).symm
+    subst this
+    refine ⟨Nat.zero_le _, ?_⟩
+    intro p s hs _
+    have hmem := List.mem_of_getElem? hs
+    simp only [hnew, List.mem_map] at hmem
+    obtain ⟨t, _, rfl⟩ := hmem
+    rfl
+  · intro r hr
+    change (R ++ [new])[b.current + 1]? = some r at hr
+    rw [hnewget] at hr
+    have : r = new := (Option.some.inj hr).symm
+    subst this
+    have h0 : 0 < new.slots.length := by omega
+    refine ⟨new.slots[0], List.getElem_mem h0, ?_⟩
+    have hmem := List.getElem_mem h0
+    simp only [hnew, List.mem_map] at hmem
+    obtain ⟨t, _, ht⟩ := hmem
+    rw [← ht]
+  · intro k prev next hprev hnext
+    change (R ++ [new])[k]? = some prev at hprev
+    change (R ++ [new])[k + 1]? = some next at hnext
+    change TopRel b.mode ((R ++ [new]).take (k + 1)) prev next
+    by_cases hk1 : k + 1 < b.current + 1
+    · rw [hleft k (by omega)] at hprev
+      rw [hleft (k + 1) hk1] at hnext
+      rw [List.take_append_of_le_length (by omega)]
+      exact hpre.top k prev next hprev hnext
+    · by_cases hk2 : k = b.current
+      · subst hk2
+        rw [hleft _ (by omega), hR, written_cur hl] at hprev
+        rw [hnewget] at hnext
+        have h1 : prev = rg.write res := (Option.some.inj hprev).symm
+        have h2 : next = new := (Option.some.inj hnext).symm
+        subst h1; subst h2
+        refine ⟨es, hes, by rw [hnewlen, htl], ?_⟩
+        intro p o s ho hs
+        left
+        rw [hnewlen] at ho
+        simp only [hnew, List.getElem?_map] at hs
+        rw [ho] at hs
+        simp only [Option.map_some, Option.some.injEq] at hs
+        rw [← hs]
+      · have : (R ++ [new])[k + 1]? = none := by
+          apply List.getElem?_eq_none
+          simp only [List.length_append, List.length_singleton, hRlen]; omega
+        rw [this] at hnext; cases hnext
+  · intro r hr
+    change r ∈ R ++ [new] at hr
+    rcases List.mem_append.mp hr with h | h
+    · exact hpre.nodup r h
+    · simp only [List.mem_singleton] at h
+      subst h
+      have hids : new.ids = (topList es newLen b.mode).filterMap id := by
+        simp only [Rung.ids, hnew, List.filterMap_map]; rfl
+      rw [hids]
+      apply topList_nodup
+      rw [es_ids hes]
+      exact hpre.nodup (rg.write res) (List.mem_of_getElem? (written_cur hl))
+
+/-- **`on_result` on a legal call**: it does not raise, one of the three outcomes
+applies, and the invariant is kept. -/
+theorem onResult_cases (hw : BWF spec b) (hl : LegalRes b res rg sl) :
+    ∃ b' np, b.onResult res = .ok (b', np) ∧ ResultCase b res rg b' np ∧ BWF spec b' := by
+  unfold Bracket.onResult
+  rw [checkResult_ok hw hl]
+  change ∃ b' np, (b.written rg res).afterWrite (rg.write res) = .ok (b', np) ∧ _
+  unfold Bracket.afterWrite
+  by_cases hd : RungDone (rg.write res) b.firstFree
+  · have hd' : (rg.write res).slots.length ≤ (b.written rg res).firstFree ∧
+        pendingIn (rg.write res).slots (b.written rg res).firstFree = 0 := hd
+    simp only [hd', and_self, if_true]
+    have hnum : (b.written rg res).numRungs = b.numRungs := by
+      simp [Bracket.numRungs, Bracket.written]
+    by_cases hc : b.numRungs ≤ b.current + 1
+    · have hcomp : ({ b.written rg res with current := (b.written rg res).current + 1, firstFree := 0 } : Bracket).isComplete = true := by
+        simp only [Bracket.isComplete, decide_eq_true_eq]
+        change (b.written rg res).numRungs ≤ b.current + 1
+        rw [hnum]; exact hc
+      simp only [hcomp, if_true]
+      exact ⟨_, _, rfl, ResultCase.last hd hc, last_wf hw hl hd hc⟩
+    · have hcomp : ({ b.written rg res with current := (b.written rg res).current + 1, firstFree := 0 } : Bracket).isComplete = false := by
+        simp only [Bracket.isComplete, decide_eq_false_iff_not]
+        change ¬ (b.written rg res).numRungs ≤ b.current + 1
+        rw [hnum]; exact hc
+      simp only [hcomp, Bool.false_eq_true, if_false]
+      -- the promotion step
+      have hn := hw.numRungs_eq
+      have hblen : b.rungs.length = b.current + 1 := by rw [hw.len]; omega
+      have htodo : ∃ newLen ms rest, b.todo = (newLen, ms) :: rest := by
+        cases ht : b.todo with
+        | nil => simp [Bracket.numRungs, ht] at hc; omega
+        | cons hd tl => exact ⟨hd.1, hd.2, tl, rfl⟩
+      obtain ⟨newLen, ms, rest, htodo⟩ := htodo
+      obtain ⟨es, hes⟩ := entriesOf_some (rg.write res).slots ((rungDone_iff hw hl).mp hd)
+      have hprom : ({ b.written rg res with current := (b.written rg res).current + 1, firstFree := 0 } : Bracket).promote
+          = .ok ({ b.written rg res with
+                    current := b.current + 1, firstFree := 0,
+                    rungs := (b.written rg res).rungs ++
+                      [{ slots := (topList es newLen b.mode).map (fun t => ⟨t, none⟩), level := ms }],
+                    todo := rest },
+                 remainingList es (topList es newLen b.mode)) := by
+        unfold Bracket.promote
+        have hk : (b.written rg res).kind = .hyperband := hw.kind
+        have ht' : (b.written rg res).todo = (newLen, ms) :: rest := htodo
+        have hlen' : (b.written rg res).rungs.length = (b.written rg res).current + 1 := by
+          simp only [Bracket.written, List.length_set]; exact hblen
+        have hprev : (b.written rg res).rungs[(b.written rg res).current + 1 - 1]? = some (rg.write res) := by
+          simp only [Nat.add_sub_cancel]; exact written_cur hl
+        simp only [hk, ht', hlen', ne_eq, not_true_eq_false, if_false, hprev, hes, getTopList]
+        rfl
+      rw [hprom]
+      exact ⟨_, _, rfl, ResultCase.promote hd newLen ms rest es htodo hes,
+        promote_wf hw hl hd hc newLen ms rest es htodo hes⟩
+  · have hd' : ¬ ((rg.write res).slots.length ≤ (b.written rg res).firstFree ∧
+        pendingIn (rg.write res).slots (b.written rg res).firstFree = 0) := hd
+    simp only [hd', if_false]
+    exact ⟨_, _, rfl, ResultCase.stay hd, written_wf_of_not_done hw hl hd⟩
+
+end done
+
 end SyneTune.Sync
